@@ -442,6 +442,8 @@ def planted(rnd, L, sig, tg):
         kinds += ["row", "ext"]
     if L["uf"] and nums and not L["dl"]:
         kinds += ["iface"]
+    if L["uf"] and nums and any(f for f in sig.funs if len(f[1]) == 1 and f[1][0] in nums):
+        kinds += ["ufargs", "ufargs"]
     if not kinds:
         return out
     k = rnd.choice(kinds)
@@ -525,6 +527,22 @@ def planted(rnd, L, sig, tg):
         out.append("(= (store %s %s %s) (store %s %s %s))" % (av, i1, e1, bv, i1, e1))
         if rnd.random() < 0.5:
             out.append("(= (select %s %s) (select %s %s))" % (av, i1, bv, i1))
+    elif k == "ufargs":
+        # numeric variables that occur only as UF arguments next to variables bounded by arithmetic
+        f = rnd.choice([f for f in sig.funs if len(f[1]) == 1 and f[1][0] in nums])
+        s = f[1][0]
+        vs = list(sig.vars[s])
+        rnd.shuffle(vs)
+        lit = (lambda v: int_lit(v)) if s == "Int" else (lambda v: real_lit(rnd, v))
+        n = rnd.randint(2, len(vs))
+        for i, v in enumerate(vs[:n]):
+            if rnd.random() < 0.6:
+                out.append("(%s %s %s)" % (rnd.choice([">=", "<=", "="]), v, lit(rnd.randint(-1, 4))))
+        apps = ["(%s %s)" % (f[0], v) for v in vs[:n]]
+        if f[2] == "Bool":
+            out.append("(xor %s %s)" % (apps[0], apps[1]))
+        else:
+            out.append("(distinct %s)" % " ".join(apps))
     elif k == "iface":
         s = rnd.choice(nums)
         fs = [f for f in sig.funs if s in f[1]]
@@ -631,6 +649,10 @@ def gen_assertions(rnd, L, sig, tg, depth, n_assert, planted_p=0.55):
         out += planted(rnd, L, sig, tg)
         while rnd.random() < planted_p * 0.6 and len(out) < 14:
             out += planted(rnd, L, sig, tg)
+    if out and rnd.random() < 0.18:
+        # planted-only script: the shape is not drowned in unrelated constraints
+        rnd.shuffle(out)
+        return out, pool
     while len(out) < n_assert:
         r = rnd.random()
         if r < 0.45:
